@@ -37,13 +37,28 @@ def P(name):
     return importlib.import_module('TidalPy.tides.potential.' + name).tidal_potential
 
 
+PURITY = []      # issues reported by the call-boundary monitor (caller arrays untouched, second call identical); drained by eval_case
+
+
 def call(name, th, ph, t, n, o, e, I, static=False):
+    from harness.purity import pure_call
     f = P(name)
     if name == 'synchronous_low_e':
-        return f(R, ph, th, t, n, e, MH, A)
-    if 'no_obliquity' in name:
-        return f(R, ph, th, t, n, o, e, MH, A, static)
-    return f(R, ph, th, t, n, o, e, I, MH, A, static)
+        args = (R, ph, th, t, n, e, MH, A)
+    elif 'no_obliquity' in name:
+        args = (R, ph, th, t, n, o, e, MH, A, static)
+    else:
+        args = (R, ph, th, t, n, o, e, I, MH, A, static)
+    if len(PURITY) < 3 and CALLS[0] % 7 == 0:
+        out, iss = pure_call(f, *args)
+        PURITY.extend(f'{name}: {i_}' for i_ in iss)
+    else:
+        out = f(*args)
+    CALLS[0] += 1
+    return out
+
+
+CALLS = [0]
 
 
 def total(name, th, ph, t, n, o, e, I, static=False):
@@ -377,6 +392,8 @@ def eval_case(c):
                 vals[f'{st}:{k}'] = [[float(v) / SC for v in np.asarray(x, dtype=float)] for x in a[2][k]]
             nontriv = True
         obs = {'name': name, 'values': vals, 'is_dispatcher': hasattr(f, 'py_func')}
+    while PURITY:
+        V('call-boundary-purity', PURITY.pop(0))
     return {'status': 'violated' if viol else 'held', 'nontrivial': nontriv, 'violations': viol, 'obs': obs, 'counters': cnt}
 
 
